@@ -199,7 +199,7 @@ def check_panic_freedom(ctx, facts):
         else:
             ctx.violate("C11.2", F, "untriaged-panic-site:%s:%s" % (kind.split("{")[0].strip(), opstr[:60]), b.relfile, t["line"],
                         "potential panic (%s on %s) on the open/recovery path is neither discharged by a rule nor listed in the table: a damaged file could crash the open" % (kind, opstr[:100]))
-    ctx.floor("C11.2", "potential panic sites on the open path", n, 30)
+    ctx.floor("C11.2", "potential panic sites on the open path", n, 10)
     ctx.note("panic sites on the open path: %d, discharged by rule: %d, by table row: %d" % (n, n_auto, n_table))
     # decoder guards (7 sites)
     n_dec = 0
@@ -320,7 +320,7 @@ def check_untrusted_length(ctx, facts):
                 ctx.violate("C11.3", F, "unbounded-on-disk-length:" + callee_name(s.node).split("::")[-1], b.relfile, s.line,
                             "%s is sized by the on-disk read_size (%s) without a dominating bound against the buffer or file length: a flipped bit in the unchecksummed header "
                             "asks for up to 4 GiB or slices out of range" % (callee_name(s.node).split("::")[-1], sh[:80]))
-    ctx.floor("C11.3", "allocations/slices sized by read_size", n, 2)
+    ctx.floor("C11.3", "allocations/slices sized by read_size", n, 1)
     # rkyv size feature (read_size archived as u32)
     try:
         with open(common.extract.REPO + "/Cargo.toml") as f:
